@@ -22,6 +22,11 @@ pub fn data(kind: &str, n: usize, r: &mut StdRng) -> Vec<u8> {
         for _ in 0..n {
             v.push(r.gen());
         }
+    } else if kind == "hibytes" {
+        // incompressible bytes that all take 9 bits in the fixed Huffman code
+        for _ in 0..n {
+            v.push(r.gen_range(144..=255));
+        }
     } else if kind == "text" {
         while v.len() < n {
             let w = WORDS[r.gen_range(0..WORDS.len())];
